@@ -366,6 +366,14 @@ def register(reg):
                                                                    impl=_list_arguments_impl, assumed=False)
 
 
+def _standin(repo, seed, tier):
+    from pyvc.standin import run_standin
+    return run_standin('C11', tier, seed, repo)
+
+
+_standin.tiers = ('quick', 'thorough')
+BOUNDED = [_standin]
+
 NOT_DECIDED = [
     'tree -> argument shapes (_iter_arguments) and bracket_start: functional correctness pending (bounded grid planned)',
     '*iterable after a keyword argument (f(a=1, *x|): Python binds positionally, jedi answers None): left '
